@@ -197,6 +197,10 @@ Proof.
   destruct ((fst x =? l)%N && idx_match i (snd x)); cbn [length]; rewrite ?Nat2Z.inj_succ; glia.
 Qed.
 Lemma dcount_nil i l : dcount i l [] = 0. Proof. reflexivity. Qed.
+Lemma dcount_cons i l x r : dcount i l (x :: r) = (if (fst x =? l)%N && idx_match i (snd x) then 1 else 0) + dcount i l r.
+Proof.
+  unfold dcount. cbn [filter]. destruct ((fst x =? l)%N && idx_match i (snd x)); cbn [length]; rewrite ?Nat2Z.inj_succ; glia.
+Qed.
 Lemma dcount_app i l a b : dcount i l (a ++ b) = dcount i l a + dcount i l b.
 Proof. unfold dcount. rewrite filter_app, app_length, Nat2Z.inj_add. reflexivity. Qed.
 Lemma d_add_snd d x : snd (d_add d x) = snd d. Proof. reflexivity. Qed.
@@ -271,6 +275,16 @@ Qed.
 (* counting in element lists *)
 Lemma count_idx_app i a b : count_idx i (a ++ b) = count_idx i a + count_idx i b.
 Proof. unfold count_idx. rewrite filter_app, app_length, Nat2Z.inj_add. reflexivity. Qed.
+Lemma count_idx_cons i a r : count_idx i (a :: r) = (if idx_match i (e_kind a) then 1 else 0) + count_idx i r.
+Proof. unfold count_idx. cbn [filter]. destruct (idx_match i (e_kind a)); cbn [length]; rewrite ?Nat2Z.inj_succ; glia. Qed.
+Lemma dcount_relabel i l (lf : elem -> N) el : l <> 0%N ->
+  dcount i l (map (fun e => (lf e, e_kind e)) (filter (fun e => negb (lf e =? 0)%N) el)) = count_idx i (filter (fun e => (lf e =? l)%N) el).
+Proof.
+  intro Hl. induction el as [|a el IH]; cbn [filter map]; [reflexivity|].
+  destruct (lf a =? 0)%N eqn:E0; cbn [negb].
+  - apply N.eqb_eq in E0. assert (E1 : (lf a =? l)%N = false) by (apply N.eqb_neq; congruence). rewrite E1. exact IH.
+  - cbn [map]. rewrite dcount_cons. cbn [fst snd]. destruct (lf a =? l)%N; cbn [andb]; [rewrite count_idx_cons|]; lia.
+Qed.
 Lemma count_idx_nonneg i a : 0 <= count_idx i a. Proof. unfold count_idx. apply Nat2Z.is_nonneg. Qed.
 Lemma count_idx_perm i a b : Permutation a b -> count_idx i a = count_idx i b.
 Proof.
